@@ -72,12 +72,14 @@ func famTry() {
 	}
 	seen := map[string]bool{}
 	id := *fIDBase - 1
-	for _, t := range trees {
+	for ti, t := range trees {
 		src := t.Src()
 		if seen[src] {
 			continue
 		}
 		seen[src] = true
+		curK = []int64{3, 3, 3, 7}[ti%4]
+		setK(t, curK)
 		vm := map[string]bool{}
 		varsOf(t, vm)
 		var vnames []string
